@@ -37,6 +37,10 @@ fn observe(map: &MemoryMap, base: u64, n: u64, lo: u64, hi: u64, out: &mut Strin
 			out.push_str(&format!(" f{}@{:x}={}", tag, a, r));
 			let r = p(catch(|| match map.get(a32, s) { None => "none".to_string(), Some((r, d)) => seg_str(r, d) }));
 			out.push_str(&format!(" g{}@{:x}={}", tag, a, r));
+			// the mutable lookup (same contract as get; on a copy, nothing is written through it)
+			let mut m2 = map.clone();
+			let r = p(catch(std::panic::AssertUnwindSafe(|| match m2.get_mut(a32, s) { None => "none".to_string(), Some((r, d)) => seg_str(r, d) })));
+			out.push_str(&format!(" m{}@{:x}={}", tag, a, r));
 		}
 	}
 	// ranges
